@@ -81,7 +81,8 @@ func c14Walk(c *Ctx, viol func(clause, detail string), uncast, cast interface{},
 				hasChild = true
 			}
 		}
-		for k, uv := range u {
+		for _, k := range sortedKeys(u) { // a fixed order: the first difference reported must not depend on Go's map order
+			uv := u[k]
 			cv, ok := cm[k]
 			if !ok {
 				viol("structure", fmt.Sprintf("key %q missing in the cast decode: uncast=%s cast=%s", k, dump(uncast), dump(cast)))
